@@ -13,7 +13,7 @@ for l in open('/verif/properties.jsonl'):
     if d['id'] == pid:
         prop = d
 used = []
-for d in sorted(glob.glob(f'/verif/seeded/{pid}?')):
+for d in sorted(glob.glob(f'/verif/seeded/{pid}*')):
     m = json.load(open(d + '/meta.json'))
     s = (m.get('summary') or '').replace('\n', ' ')
     used.append('- ' + s[:260])
